@@ -1,6 +1,7 @@
 (* C01, graph level: the transaction-by-transaction results in one statement.
    [K_side o s] = the side condition under which transaction [o] is proved to preserve K in state
-   [s]; it is [False] for define_step (refuted: D4) and [True] for nine of the fourteen operations.
+   [s]; for define_step it is "the full-recycle branch is not taken" (that branch is the refuted
+   one: D4); it is [True] for eight of the fourteen operations.
    K_preserved_all: inv_core_b s, K_side o s, K_b s  =>  K_b (apply_op s o).
    K_history: along every history whose transactions meet their side conditions K holds at the
    end, given that the states of the history satisfy C09's invariant (which C09 proves for every
@@ -9,7 +10,7 @@ From Coq Require Import List NArith Bool Lia.
 From SV Require Import lib.Bytes model.Graph model.GraphInv model.NoStale proofs.NoStaleProofs
      proofs.NoStaleMark proofs.NoStaleRescan proofs.NoStaleStep proofs.NoStaleComplete
      proofs.NoStaleExecEnd proofs.NoStaleInv proofs.NoStaleOps proofs.NoStaleDelete
-     proofs.NoStaleDeclare proofs.NoStaleAmend.
+     proofs.NoStaleDeclare proofs.NoStaleAmend proofs.NoStaleDefine.
 Import ListNotations.
 Open Scope N_scope.
 
@@ -19,7 +20,7 @@ Definition leaf_ready (l : str) (s : st) : Prop :=
 
 Definition K_side (o : op) (s : st) : Prop :=
   match o with
-  | OpDefineStep _ _ _ _ _ _ _ => False
+  | OpDefineStep _ l inp env out vol _ => recycles l inp env out vol s = false
   | OpDeclareStatic _ _ | OpDeleteDetached | OpResetInterrupted | OpMarkStepPending _
   | OpDispatch _ | OpValidatePending _ | OpHold _ | OpRelease _ => True
   | OpUpdateHashes _ hs => static_update hs s
@@ -44,7 +45,7 @@ Proof.
   destruct o; cbn [K_side] in Hside.
   - exact (K_op_declare_static creator paths s Hi HK).
   - exact (K_op_update_static c hs s Hu Hsp Hside HK).
-  - contradiction.
+  - exact (K_op_define_step_no_recycle creator label inp env out vol nd s Hi Hside HK).
   - exact (K_op_amend_step label inp env out vol s Hi Hside HK).
   - apply K_preserved_partial; [exact HK|left; reflexivity].
   - destruct Hside as [H1 H2]. exact (K_op_reset_for_rerun_leaf label s Hu Hsp H1 H2 HK).
@@ -82,3 +83,22 @@ Lemma K_history (cap : N) (ops : list op) :
   (forall pre, inv_core_b (run_ops pre (init_st cap)) = true) ->
   sides_ok (init_st cap) ops -> K_b (run_ops ops (init_st cap)) = true.
 Proof. intros Hinv Hs. apply (K_run ops (init_st cap) Hinv Hs). reflexivity. Qed.
+
+(* the side conditions along a real build: build 1 of the D4 history *)
+Ltac in_cases H := vm_compute in H; repeat (destruct H as [H|H]; [subst|]); try contradiction.
+
+Lemma sides_ok_build1 : sides_ok (init_st 3) d4_build1.
+Proof.
+  unfold d4_build1, boot_ops. cbn [app sides_ok K_side].
+  repeat match goal with |- _ /\ _ => split end; try exact I; try (vm_compute; reflexivity).
+  all: try (intros ph r Hin Hf; vm_compute in Hin; destruct Hin as [<-|[]]; vm_compute in Hf; injection Hf as <-;
+            first [reflexivity | left; reflexivity | right; reflexivity]).
+  all: try (unfold leaf_ready, leaf_step; cbv zeta; repeat split; try (vm_compute; reflexivity);
+            intros f Hf; in_cases Hf).
+  all: left; split; [reflexivity|]; split; [reflexivity|]; split;
+    [intros ph r Hin Hf; in_cases Hin; vm_compute in Hf; injection Hf as <-;
+       first [left; reflexivity | right; reflexivity]|].
+  all: intros s1 E; vm_compute in E; injection E as <-; split;
+    [intros k Hk; in_cases Hk; vm_compute; reflexivity
+    |intros f Hf; in_cases Hf; left; vm_compute; reflexivity].
+Qed.
